@@ -25,24 +25,30 @@ def module(cls, shape, **kw):
                                  single_voxel_size=(1e-7,) * 3, output_shape={"params": tuple(shape)})
 
 
+JIT = {}
+FUNS = {"polymer": "compute_polymer_connection", "air": "compute_air_connection", "remove": "remove_floating_polymer",
+        "connect": "connect_holes_and_structures"}
+
+
+def jitted(kind, shape):
+    """one compiled function per (kind, shape): the transforms are used under jit in practice, and
+    un-jitted while/fori loops recompile on every call"""
+    key = (kind, tuple(shape))
+    if key not in JIT:
+        if kind in FUNS:
+            JIT[key] = jax.jit(getattr(bt, FUNS[kind]))
+        else:  # indices: 0 = air (background), 1 = polymer
+            mod = module(RemoveFloatingMaterial if kind == "remove_module" else ConnectHolesAndStructures, shape)
+            JIT[key] = jax.jit(lambda p: mod({"params": p})["params"])
+    return JIT[key]
+
+
 def run(c):
     m = np.asarray(c["m"], dtype=bool).reshape(c["shape"])
     k = c["kind"]
     try:
-        if k == "polymer":
-            out = bt.compute_polymer_connection(jnp.asarray(m))
-        elif k == "air":
-            out = bt.compute_air_connection(jnp.asarray(m))
-        elif k == "remove":
-            out = bt.remove_floating_polymer(jnp.asarray(m))
-        elif k == "connect":
-            out = bt.connect_holes_and_structures(jnp.asarray(m))
-        elif k == "remove_module":   # indices: 0 = air (background), 1 = polymer
-            out = module(RemoveFloatingMaterial, c["shape"])({"params": jnp.asarray(m.astype(np.float32))})["params"]
-        elif k == "connect_module":
-            out = module(ConnectHolesAndStructures, c["shape"])({"params": jnp.asarray(m.astype(np.float32))})["params"]
-        else:
-            raise KeyError(k)
+        f = jitted(k, c["shape"])
+        out = f(jnp.asarray(m)) if k in FUNS else f(jnp.asarray(m.astype(np.float32)))
     except ValueError as e:
         return {"error": "ValueError: " + str(e)[:100]}
     out = np.asarray(out)
